@@ -28,7 +28,7 @@ CHUNK = 4
 
 
 def budget(tier):
-    return 1500 if tier == "quick" else 12000
+    return 3000 if tier == "quick" else 12000
 
 
 def after_op(w, task, rec, outs):
